@@ -172,6 +172,13 @@ func (x *Exec) KeyBytes(name string) []byte {
 			return []byte(name + strings.Repeat("_", n-len(name)))
 		}
 	}
+	if strings.HasPrefix(name, "G") && len(name) > 1 {
+		// giant key, 0.7 page: two of them do not fit a page, so leaf AND branch pages holding them have overflow pages
+		n := x.pageSize() * 7 / 10
+		if n > len(name) {
+			return []byte(name + strings.Repeat("_", n-len(name)))
+		}
+	}
 	if strings.HasPrefix(name, "HUGE") { // 32769 bytes: too large
 		return bytes.Repeat([]byte("H"), refmodel.MaxKeySize+1)
 	}
